@@ -156,6 +156,54 @@ type RunInfo struct {
 // ---------------------------------------------------------------------------
 
 const caseTimeoutDefault = 40 * time.Second
+const deadlockProbeAfter = 10 * time.Second
+
+var goroutineHdr = regexp.MustCompile(`(?m)^goroutine (\d+) \[([^\]]*)\]:$`)
+var caseFrame = regexp.MustCompile(`main\.run[A-Z0-9]|main\.DoC|main\.check|hashicorp/go-argmapper`)
+
+// blockedCaseGoroutines returns a description of the goroutines working on
+// the current case if ALL of them are parked (mutex, semaphore, wait group,
+// channel, select), and "" if any of them is running, runnable, sleeping or
+// in a syscall — or if there is none.
+func blockedCaseGoroutines() string {
+	buf := make([]byte, 4<<20)
+	buf = buf[:runtime.Stack(buf, true)]
+	var out []string
+	for _, blk := range strings.Split(string(buf), "\n\n") {
+		m := goroutineHdr.FindStringSubmatch(blk)
+		if m == nil || !caseFrame.MatchString(blk) || strings.Contains(blk, "blockedCaseGoroutines") {
+			continue
+		}
+		st := m[2]
+		parked := false
+		for _, w := range []string{"Mutex.Lock", "semacquire", "WaitGroup.Wait", "chan receive", "chan send", "select", "Cond.Wait", "RWMutex"} {
+			if strings.Contains(st, w) {
+				parked = true
+			}
+		}
+		if !parked {
+			return ""
+		}
+		where := ""
+		for _, ln := range strings.Split(blk, "\n") {
+			if strings.Contains(ln, "hashicorp/go-argmapper") && !strings.HasPrefix(ln, "\t") {
+				where = strings.TrimSpace(ln)
+				if i := strings.IndexByte(where, '('); i > 0 {
+					where = where[:i]
+				}
+				break
+			}
+		}
+		out = append(out, "goroutine "+m[1]+" ["+st+"] in "+where)
+	}
+	return strings.Join(out, "\n")
+}
+
+var gidRe = regexp.MustCompile(`goroutine (\d+) `)
+
+func sameGoroutines(a, b string) bool {
+	return fmt.Sprint(gidRe.FindAllString(a, -1)) == fmt.Sprint(gidRe.FindAllString(b, -1))
+}
 
 // memLimit: a single case that drives the process above this heap size is an
 // unbounded allocation (typical cases allocate a few MiB).
@@ -203,9 +251,29 @@ func workerMain(prop, tier string, seed int64, start, step, n int, journal strin
 			jf.WriteString("T " + strconv.Itoa(idx) + "\n")
 			os.Exit(3)
 		})
+		// state-based deadlock verdict: if, well past any plausible running
+		// time, every goroutine working on the case is parked on a lock or
+		// wait (none running, runnable or sleeping) at two inspections in a
+		// row, nobody is left to release anything
+		dl := time.AfterFunc(deadlockProbeAfter, func() {
+			first := blockedCaseGoroutines()
+			if first == "" {
+				return
+			}
+			time.Sleep(2 * time.Second)
+			if atomic.LoadInt64(&curIdx) != int64(idx) {
+				return
+			}
+			if second := blockedCaseGoroutines(); second != "" && sameGoroutines(first, second) {
+				mu.Lock()
+				jf.WriteString("D " + strconv.Itoa(idx) + " " + strings.ReplaceAll(second, "\n", " | ") + "\n")
+				os.Exit(5)
+			}
+		})
 		ctx := &CaseCtx{Prop: prop, Tier: tier, Seed: seed, Idx: i}
 		res := runCaseRecover(m, ctx)
 		timer.Stop()
+		dl.Stop()
 		if res.Key != "" {
 			res.KeyHash = strconv.FormatUint(hashStr(res.Key), 36)
 		}
@@ -245,15 +313,17 @@ func runCaseRecover(m *Monitor, ctx *CaseCtx) (res CaseResult) {
 // ---------------------------------------------------------------------------
 
 type journalState struct {
-	results   []*CaseResult
-	lastBegin int
-	lastEnd   int
-	timedOut  int
-	memOut    int
+	results      []*CaseResult
+	lastBegin    int
+	lastEnd      int
+	timedOut     int
+	memOut       int
+	deadlock     int
+	deadlockInfo string
 }
 
 func readJournal(path string, from int64) (js journalState, off int64) {
-	js.lastBegin, js.lastEnd, js.timedOut, js.memOut = -1, -1, -1, -1
+	js.lastBegin, js.lastEnd, js.timedOut, js.memOut, js.deadlock = -1, -1, -1, -1, -1
 	f, err := os.Open(path)
 	if err != nil {
 		return js, from
@@ -276,6 +346,12 @@ func readJournal(path string, from int64) (js journalState, off int64) {
 			js.timedOut, _ = strconv.Atoi(line[2:])
 		case strings.HasPrefix(line, "M "):
 			js.memOut, _ = strconv.Atoi(line[2:])
+		case strings.HasPrefix(line, "D "):
+			f := strings.SplitN(line[2:], " ", 2)
+			js.deadlock, _ = strconv.Atoi(f[0])
+			if len(f) > 1 {
+				js.deadlockInfo = f[1]
+			}
 		case strings.HasPrefix(line, "E "):
 			rest := line[2:]
 			sp := strings.IndexByte(rest, ' ')
@@ -408,6 +484,20 @@ func parentMain(prop, tier string) int {
 					agg.Cases++
 					agg.Inconclusive["watchdog"]++
 					watchdogs++
+				} else if js.deadlock == crashed {
+					agg.Cases++
+					agg.Crashes++
+					props := m.CrashProps
+					if len(props) == 0 {
+						props = []string{"C06"}
+					}
+					for _, p := range props {
+						agg.Violations = append(agg.Violations, Violation{
+							Prop: p, Key: "deadlock",
+							Msg:    fmt.Sprintf("case %d never returns: every goroutine working on it is parked with nobody left to wake it (%s)", crashed, js.deadlockInfo),
+							Detail: map[string]interface{}{"case": crashed},
+						})
+					}
 				} else if js.memOut == crashed {
 					agg.Cases++
 					agg.Crashes++
